@@ -333,6 +333,11 @@ impl SmModel for AgentModel {
                     acc.violation(v);
                 }
             }
+            if self.slice.prop == "C07" && breaches.iter().any(|b| b.property == "C06") {
+                if let Some(v) = drop_effect_check(spec.tcp, &hist) {
+                    acc.violation(v);
+                }
+            }
             acc.outcome("diverged (path not extended)");
             // a diverged node is kept (so it is counted) but gets no successors
             let key = snapshot::hash128(&format!("diverged#{:?}", hist));
@@ -421,6 +426,11 @@ pub fn drain_from(mut spec: Spec, mut real: Real, mut steps: Vec<Step>, prop: &'
                 let mut v = to_violation(b, spec.tcp, &steps);
                 v.signature = format!("{}/drain", v.signature);
                 acc.violation(v);
+            }
+            if prop == "C07" && breaches.iter().any(|b| b.property == "C06") {
+                if let Some(v) = drop_effect_check(spec.tcp, &steps) {
+                    acc.violation(v);
+                }
             }
             if breaches.iter().all(|b| b.property != "C05") {
                 // the reference lost track for a reason that is another property's business (timing,
@@ -532,6 +542,53 @@ pub fn leak_check(tcp: bool, hist: &[Step]) -> Option<Violation> {
         expected: timing.expected.clone(),
         observed: timing.observed.clone(),
         replay: replay_json(tcp, hist, Some(json!("leak"))),
+    })
+}
+
+/// C07, "a dropped response leaves the retransmission timing unchanged": the history breaches a
+/// timing clause, and the same history with the dropped responses removed (same instants for
+/// everything else) does not — so the drops are what moved the schedule.
+pub fn drop_effect_check(tcp: bool, hist: &[Step]) -> Option<Violation> {
+    // joint run, remembering which response steps were dropped while their transaction was live
+    let mut real = Real::new(tcp, base_instant());
+    let mut spec = Spec::new(tcp);
+    let mut dropped: Vec<usize> = Vec::new();
+    let mut timing: Option<Breach> = None;
+    for (i, st) in hist.iter().enumerate() {
+        let live_before = match st.act {
+            Act::Resp { id, .. } => spec.live.contains_key(&id),
+            _ => false,
+        };
+        let b = lockstep(&mut spec, &mut real, st, "C07");
+        if let Act::Resp { id, .. } = st.act {
+            if live_before && spec.live.contains_key(&id) {
+                dropped.push(i);
+            }
+        }
+        if !b.is_empty() {
+            timing = b.into_iter().find(|x| x.property == "C06");
+            break;
+        }
+    }
+    let timing = timing?;
+    if dropped.is_empty() {
+        return None;
+    }
+    let without: Vec<Step> = hist.iter().enumerate().filter(|(i, _)| !dropped.contains(i)).map(|(_, s)| *s).collect();
+    let mut real = Real::new(tcp, base_instant());
+    let mut spec = Spec::new(tcp);
+    for st in &without {
+        if !lockstep(&mut spec, &mut real, st, "C07").is_empty() {
+            return None; // misbehaves without the drops as well: not their effect
+        }
+    }
+    Some(Violation {
+        property: "C07".into(),
+        signature: "C07/dropped-response-changed-timing".into(),
+        what: format!("a dropped response changed the transaction's retransmission timing: the history breaches `{}` ({}), the same history without its {} dropped response(s) follows the schedule", timing.clause, timing.what, dropped.len()),
+        expected: timing.expected.clone(),
+        observed: timing.observed.clone(),
+        replay: replay_json(tcp, hist, Some(json!("drop-effect"))),
     })
 }
 
@@ -720,6 +777,9 @@ pub fn replay(prop: &str, rp: &Value) -> Vec<Violation> {
             }
         }
         return acc.violations.into_values().map(|(v, _)| v).collect();
+    }
+    if rp.get("variant").and_then(|v| v.as_str()) == Some("drop-effect") {
+        return drop_effect_check(tcp, &steps).into_iter().collect();
     }
     if rp.get("variant").and_then(|v| v.as_str()) == Some("leak") {
         return leak_check(tcp, &steps).into_iter().collect();
